@@ -366,81 +366,4 @@ theorem plan_round_trip (ν : NumModel) (Y : YamlModel) (dumped : Text) (m : Y.M
   rw [if_neg (by decide), hsplit]
   simp only [Option.map_some, hp, hY, hint]
 
-/-! ## non-vacuity: concrete instances satisfy every hypothesis
-
-`tokNum` is the number model "a float is its decimal token" (`ofTok = repr = id`); for it `NumOk x` is
-just "x is a number token".  The real Python instance (`float`, `repr`) is validated by the harness. -/
-
-/-- `CAST "라이트닝 \"스피어\" #1" 2e+2` -/
-def exOp : Operation tokNum :=
-  mkFull tokNum "CAST".toList "라이트닝 \\\"스피어\\\" #1".toList "2e+2".toList
-
-theorem exOp_inRange : InRange tokNum exOp :=
-  InRange.full (by decide) (by decide) ⟨by decide, rfl⟩
-
-example : parseText tokNum "CAST \"라이트닝 \\\"스피어\\\" #1\" 2e+2".toList = .ok [.op exOp] :=
-  parse_render tokNum exOp_inRange
-
-example : parseText tokNum "x3 CAST \"라이트닝 \\\"스피어\\\" #1\" 2e+2".toList =
-    .ok [.op exOp, .op exOp, .op exOp] :=
-  multiplier tokNum exOp_inRange (m := ['3']) (k := 3) (by decide)
-
-example : parseText tokNum "x-2 CAST \"라이트닝 \\\"스피어\\\" #1\" 2e+2".toList = .ok [] :=
-  multiplier_nonpos tokNum exOp_inRange (m := ['-', '2']) (k := -2) (by decide) (by decide)
-
-/-- a layout with indentation, tabs, a trailing comment, blank lines holding blanks, one whole-line
-comment, a multiplier line and a `!debug` line -/
-def exLead : List GTok := [.white "  ".toList, .comment " plan".toList, .white "\n\t".toList]
-def exLines : List DLine :=
-  [ ⟨none, .full "USE".toList "a b".toList "1.5".toList, [.white "\t ".toList], [.white "  ".toList],
-      [.white " ".toList, .comment " first".toList, .white "\n  \n".toList, .comment "note".toList,
-       .white "\n \t\n  ".toList]⟩,
-    ⟨none, .time "ELAPSE".toList "-.5e1".toList, [.white " ".toList], [],
-      [.white "\r\n\r\n".toList]⟩,
-    ⟨some ⟨"+2".toList, [.white " ".toList], [.white "\t".toList]⟩, .skill "CAST".toList "#x".toList,
-      [.white " ".toList], [], [.white "  \n".toList]⟩,
-    ⟨none, .console "dbg".toList, [.white " ".toList], [], [.white " ".toList, .comment "end".toList]⟩ ]
-
-example : unlex (toksOf exLead exLines) =
-    ("  # plan\n\tUSE\t \"a b\"  1.5 # first\n  \n#note\n \t\n  ELAPSE -.5e1\r\n\r\n" ++
-     "x +2\tCAST \"#x\"  \n!debug \"dbg\" #end").toList := by rfl
-
-example : parseRaw (unlex (toksOf exLead exLines)) =
-    .ok [.full "USE".toList "a b".toList "1.5".toList, .time "ELAPSE".toList "-.5e1".toList,
-         .skill "CAST".toList "#x".toList, .skill "CAST".toList "#x".toList, .console "dbg".toList] :=
-  layout_irrelevant_partial exLead exLines (by decide) (by decide) (by decide)
-
-/-- a plan with header -/
-example : parseRuntimeText tokNum rawYaml
-    (renderPlanText "a: 1".toList [.op exOp, .console "x".toList, .op (mkTime tokNum "ELAPSE".toList "210.0".toList)]) =
-    .ok ("---\na: 1\n".toList, [.op exOp, .console "x".toList, .op (mkTime tokNum "ELAPSE".toList "210.0".toList)]) :=
-  plan_round_trip tokNum rawYaml _ _ _ (by simp) rfl (by
-    intro c hc
-    simp only [List.mem_cons, List.mem_nil_iff, or_false] at hc
-    rcases hc with rfl | rfl | rfl
-    · exact .op exOp_inRange (by decide)
-    · exact .console (by decide)
-    · exact .op (.time (by decide) ⟨by decide, rfl⟩) (by decide))
-
-/-! ## the excluded layouts are really rejected by the grammar (known finding F13), the accepted
-neighbours are accepted -/
-
-example : parseRaw "CAST \"a\"\n#c\nCAST \"b\"".toList = .ok [.skill "CAST".toList ['a'], .skill "CAST".toList ['b']] := by rfl
-/-- trailing-comment-line -/
-example : parseRaw "CAST \"a\"\n#c".toList = .error .syntax := by rfl
-/-- trailing-blank-line -/
-example : parseRaw "CAST \"a\"\n".toList = .error .syntax := by rfl
-/-- comment-line-run -/
-example : parseRaw "CAST \"a\"\n#c\n#d\nCAST \"b\"".toList = .error .syntax := by rfl
-/-- filler-before-console -/
-example : parseRaw "CAST \"a\"\n#c\n!debug \"x\"".toList = .error .syntax := by rfl
-example : parseRaw "CAST \"a\"\n  \n!debug \"x\"".toList = .error .syntax := by rfl
-example : parseRaw "CAST \"a\"\n\n!debug \"x\"".toList = .ok [.skill "CAST".toList ['a'], .console ['x']] := by rfl
-/-- trailing-tab -/
-example : parseRaw "CAST \"a\"\t".toList = .error .syntax := by rfl
-/-- the grammar is ambiguous for `x <blanks> N` + line break + operation (excluded by `xfree`/`unamb`) -/
-example : parseRaw "x 3\nCAST \"a\"".toList = .error .ambiguous := by rfl
-/-- a multiplier that is not an integer literal: `int()` raises -/
-example : parseRaw "x1.5 CAST \"a\"".toList = .error .valueError := by rfl
-
 end Simaple.Props.C14
